@@ -13,6 +13,14 @@ Supported: parameters/locals of integer, character, bool and enum type; `const T
 `p[i]`; if / else / return; local declarations with initialiser; `x = e`, `x += e`, `x -= e`; the operators
 + - * / % << >> & | ^ ~ ! && || < <= > >= == != ?: ; casts between integer types; calls to other translated
 functions; enumerators; namespace-scope constexpr integers (evaluated by the compiler).
+Loops: a function whose body contains `while (c) body` (or `for (;;) body`) becomes a definition with a leading
+`fuel : nat` parameter and result `option Z` (None = fuel exhausted); each loop becomes a Fixpoint on the fuel whose
+arguments are the variables in scope, whose `then` branch is the body followed by the recursive call and whose `else`
+branch is the rest of the function.  Pointers: a `const T *` parameter is an array `Z -> Z` plus an index (initially
+0); a local pointer initialised from one is an index into the same array; `*p`, `*p++`, `++p`, `p + n`, comparisons
+and differences of pointers into the same array are supported; a returned pointer is returned as its index, nullptr
+as -1.  `x++` / `x--` inside a larger expression is supported when x occurs nowhere else in that expression (its
+update is applied after the expression).
 Anything else makes the translation of that function fail (reported; the obligation that mentions it then no longer
 compiles)."""
 import json
@@ -31,7 +39,18 @@ TARGETS = [
     ('b64_encode_size', 'size_t (size_t)'),
     ('b64_decode_size', 'ST_ssize_t (size_t, const char *)'),
     ('pad_size', 'size_t (const ST::format_spec &, size_t, _ST_PRIVATE::numeric_type)'),
+    ('compare_ci', 'int (const char *, const char *, size_t) noexcept'),
+    ('compare_ci', 'int (const char *, size_t, const char *, size_t) noexcept', 'compare_ci_4'),
+    ('compare_ci', 'int (const char *, size_t, const char *, size_t, size_t) noexcept', 'compare_ci_5'),
+    ('find_ci', 'const char *(const char *, size_t, char)'),
+    ('find_ci', 'const char *(const char *, size_t, const char *, size_t)', 'find_ci_sub'),
 ]
+# a translated function that returns a pointer returns it into the array of this parameter
+RET_BASE_PARAM = 0
+
+
+def coq_name(t):
+    return t[2] if len(t) > 2 else t[0]
 
 INT_TYPES = {
     'char': (True, 8), 'signed char': (True, 8), 'unsigned char': (False, 8), 'char8_t': (False, 8),
@@ -118,9 +137,167 @@ class Translator:
         return '(%s %d %s)' % ('wraps' if signed else 'wrapu', bits, e)
 
     # ---------------------------------------------------------------- expressions
+    def is_ptr(self, n):
+        return strip_quals((n.get('type') or {}).get('qualType', '')).endswith('*')
+
+    def ptr_expr(self, n, env):
+        """(array, index) of a pointer-valued expression"""
+        k = n.get('kind')
+        inner = [c for c in (n.get('inner') or []) if isinstance(c, dict)]
+        if k == 'ParenExpr' or (k == 'ImplicitCastExpr' and n.get('castKind') in ('LValueToRValue', 'NoOp')):
+            return self.ptr_expr(inner[0], env)
+        if k == 'CXXNullPtrLiteralExpr' or (k == 'ImplicitCastExpr' and n.get('castKind') == 'NullToPointer'):
+            return (None, '(-1)')
+        if k == 'DeclRefExpr':
+            vid = (n.get('referencedDecl') or {}).get('id')
+            if vid in self.ptr_base and vid in env:
+                return (self.ptr_base[vid], env[vid])
+            raise Unsupported('pointer %s' % (n.get('referencedDecl') or {}).get('name'))
+        if k == 'UnaryOperator' and n.get('opcode') in ('++', '--'):
+            lhs = inner[0]
+            while lhs.get('kind') == 'ParenExpr':
+                lhs = lhs['inner'][0]
+            base, old = self.ptr_expr(lhs, env)
+            vid = lhs['referencedDecl']['id']
+            new = '(%s %s 1)' % (old, '+' if n['opcode'] == '++' else '-')
+            if self.pending is None:
+                raise Unsupported('increment inside an expression in this position')
+            self.pending.append((vid, new))
+            return (base, old if n.get('isPostfix') else new)
+        if k == 'BinaryOperator' and n.get('opcode') in ('+', '-'):
+            if self.is_ptr(inner[0]) and not self.is_ptr(inner[1]):
+                base, idx = self.ptr_expr(inner[0], env)
+                return (base, '(%s %s %s)' % (idx, n['opcode'], self.expr(inner[1], env)))
+            if n['opcode'] == '+' and self.is_ptr(inner[1]) and not self.is_ptr(inner[0]):
+                base, idx = self.ptr_expr(inner[1], env)
+                return (base, '(%s + %s)' % (idx, self.expr(inner[0], env)))
+        if k == 'CallExpr':
+            return self.call(n, env)
+        raise Unsupported('pointer expression %s' % k)
+
+    def target_of(self, rd):
+        if rd.get('kind') != 'FunctionDecl':
+            return None
+        qt = (rd.get('type') or {}).get('qualType', '')
+        for t in TARGETS:
+            if t[0] == rd.get('name') and t[1] == qt:
+                return t
+        return None
+
+    def fuelled(self, t, seen=()):
+        """does the translation of target t take fuel: it contains a loop or calls a target that does"""
+        key = (t[0], t[1])
+        if key in seen or key not in self.funcs:
+            return False
+        node = self.funcs[key][0]
+        if has_loop(node):
+            return True
+
+        def calls(n):
+            if not isinstance(n, dict):
+                return False
+            if n.get('kind') == 'DeclRefExpr':
+                t2 = self.target_of(n.get('referencedDecl') or {})
+                if t2 is not None and self.fuelled(t2, seen + (key,)):
+                    return True
+            return any(calls(c) for c in (n.get('inner') or []))
+        return calls(node)
+
+    def call(self, n, env):
+        """a call to a translated function: (array of the result if it is a pointer, value)"""
+        inner = [c for c in (n.get('inner') or []) if isinstance(c, dict)]
+        callee = inner[0]
+        while callee.get('kind') in ('ImplicitCastExpr', 'ParenExpr'):
+            callee = callee['inner'][0]
+        rd = callee.get('referencedDecl') or {}
+        t = self.target_of(rd)
+        if t is None:
+            raise Unsupported('call to %s' % rd.get('name'))
+        args, ptrs = [], []
+        for a in inner[1:]:
+            if self.is_ptr(a):
+                base, idx = self.ptr_expr(a, env)
+                if base is None:
+                    raise Unsupported('nullptr passed to a translated function')
+                ptrs.append((base, idx))
+                args.append(base if idx == '(0)' else '(fun i_ => %s (%s + i_))' % (base, idx))
+            else:
+                args.append(self.expr(a, env))
+        if self.fuelled(t):
+            if self.binds is None or self.shortcircuit:
+                raise Unsupported('call to a function with a loop in this position')
+            r = self.fresh('r_' + coq_name(t))
+            self.binds.append((r, '(src_%s %s %s)' % (coq_name(t), self.fuel, ' '.join(args))))
+        else:
+            r = '(src_%s %s)' % (coq_name(t), ' '.join(args))
+        if self.is_ptr(n):
+            if len(ptrs) <= RET_BASE_PARAM:
+                raise Unsupported('pointer result of a call without pointer argument')
+            base, idx = ptrs[RET_BASE_PARAM]
+            return (base, r if idx == '(0)' else '(if Z.eqb %s (-1) then (-1) else (%s + %s))' % (r, idx, r))
+        return (None, r)
+
+    def with_binds(self, binds, text):
+        for name, c in reversed(binds):
+            text = '(match %s with None => None | Some %s => %s end)' % (c, name, text)
+        return text
+
+    def count_refs(self, n, vid):
+        if not isinstance(n, dict):
+            return 0
+        c = 1 if n.get('kind') == 'DeclRefExpr' and (n.get('referencedDecl') or {}).get('id') == vid else 0
+        return c + sum(self.count_refs(x, vid) for x in (n.get('inner') or []))
+
+    def full_expr(self, n, env, allow_pending=False, ptr=False):
+        """value of a full expression and the variable updates (x++ / x--) to apply after it"""
+        self.pending = []
+        self.binds = [] if self.opt else None
+        try:
+            v = self.ptr_expr(n, env) if ptr else self.expr(n, env)
+            pend, binds = self.pending, self.binds or []
+        finally:
+            self.pending = None
+            self.binds = None
+        for vid, _ in pend:
+            if self.count_refs(n, vid) != 1:
+                raise Unsupported('a variable incremented inside an expression occurs elsewhere in it')
+        if pend and not allow_pending:
+            raise Unsupported('increment inside an expression in this position')
+        if pend and binds:
+            raise Unsupported('increment and call to a function with a loop in one expression')
+        return v, pend, binds
+
+    def apply_pending(self, pend, env):
+        env = dict(env)
+        lets = []
+        for vid, new in pend:
+            name = self.fresh(self.var_names.get(vid, 'x'))
+            lets.append('let %s := %s in' % (name, new))
+            env[vid] = name
+        return ' '.join(lets) + (' ' if lets else ''), env
+
     def expr(self, n, env):
         k = n.get('kind')
         inner = [c for c in (n.get('inner') or []) if isinstance(c, dict)]
+        if self.is_ptr(n) and k not in ('CallExpr',):
+            return self.ptr_expr(n, env)[1]
+        if k == 'UnaryOperator' and n.get('opcode') == '*':
+            base, idx = self.ptr_expr(inner[0], env)
+            if base is None:
+                raise Unsupported('dereference of nullptr')
+            return '(%s %s)' % (base, idx)
+        if k == 'UnaryOperator' and n.get('opcode') in ('++', '--'):
+            lhs = inner[0]
+            while lhs.get('kind') == 'ParenExpr':
+                lhs = lhs['inner'][0]
+            vid = (lhs.get('referencedDecl') or {}).get('id')
+            if lhs.get('kind') != 'DeclRefExpr' or vid not in env or self.pending is None:
+                raise Unsupported('increment of something that is not a local variable')
+            ty = self.int_type(lhs.get('type'))
+            old = env[vid]
+            new = self.wrap(ty, '(%s %s 1)' % (old, '+' if n['opcode'] == '++' else '-'))
+            self.pending.append((vid, new))
+            return old if n.get('isPostfix') else new
         if k == 'ConstantExpr' and 'value' in n:
             # an integral constant expression evaluated by clang; keep the constant's name when it has one
             ref = inner[0] if inner else {}
@@ -177,6 +354,8 @@ class Translator:
                 return self.wrap(self.int_type(n.get('type')), sub)
             if ck == 'IntegralToBoolean':
                 return '(b2z (z2b %s))' % sub
+            if ck == 'PointerToBoolean':
+                return '(b2z (negb (Z.eqb %s (-1))))' % sub
             raise Unsupported('cast kind %s' % ck)
         if k == 'UnaryOperator':
             op = n.get('opcode')
@@ -193,16 +372,23 @@ class Translator:
             raise Unsupported('unary %s' % op)
         if k == 'BinaryOperator':
             op = n.get('opcode')
-            a, b = self.expr(inner[0], env), self.expr(inner[1], env)
+            if op in ('&&', '||'):
+                a = b = None
+            else:
+                a, b = self.expr(inner[0], env), self.expr(inner[1], env)
             cmpops = {'<': 'Z.ltb', '<=': 'Z.leb', '>': 'Z.gtb', '>=': 'Z.geb', '==': 'Z.eqb'}
             if op in cmpops:
                 return '(b2z (%s %s %s))' % (cmpops[op], a, b)
             if op == '!=':
                 return '(b2z (negb (Z.eqb %s %s)))' % (a, b)
-            if op == '&&':
-                return '(b2z (z2b %s && z2b %s))' % (a, b)
-            if op == '||':
-                return '(b2z (z2b %s || z2b %s))' % (a, b)
+            if op in ('&&', '||'):
+                a = self.expr(inner[0], env)
+                self.shortcircuit += 1
+                try:
+                    b = self.expr(inner[1], env)
+                finally:
+                    self.shortcircuit -= 1
+                return '(b2z (z2b %s %s z2b %s))' % (a, op, b)
             ty = self.int_type(n.get('type'))
             arith = {'+': '(%s + %s)', '-': '(%s - %s)', '*': '(%s * %s)', '/': '(Z.quot %s %s)', '%': '(Z.rem %s %s)',
                      '&': '(Z.land %s %s)', '|': '(Z.lor %s %s)', '^': '(Z.lxor %s %s)',
@@ -211,24 +397,36 @@ class Translator:
                 return self.wrap(ty, arith[op] % (a, b))
             raise Unsupported('binary %s' % op)
         if k == 'ConditionalOperator':
-            c, a, b = (self.expr(x, env) for x in inner[:3])
+            c = self.expr(inner[0], env)
+            self.shortcircuit += 1
+            try:
+                a, b = self.expr(inner[1], env), self.expr(inner[2], env)
+            finally:
+                self.shortcircuit -= 1
             return '(if z2b %s then %s else %s)' % (c, a, b)
         if k == 'ArraySubscriptExpr':
             base, idx = inner[0], inner[1]
             while base.get('kind') in ('ImplicitCastExpr', 'ParenExpr'):
                 base = base['inner'][0]
             rd = base.get('referencedDecl') or {}
-            if base.get('kind') != 'DeclRefExpr' or rd.get('id') not in env or not env[rd['id']].startswith('p_'):
-                raise Unsupported('subscript of something that is not a pointer parameter')
-            return '(%s %s)' % (env[rd['id']], self.expr(idx, env))
+            if base.get('kind') != 'DeclRefExpr' or rd.get('id') not in env or rd.get('id') not in self.ptr_base:
+                raise Unsupported('subscript of something that is not a pointer into a parameter array')
+            off = env[rd['id']]
+            if off == '(0)':
+                return '(%s %s)' % (self.ptr_base[rd['id']], self.expr(idx, env))
+            return '(%s (%s + %s))' % (self.ptr_base[rd['id']], off, self.expr(idx, env))
         if k == 'CallExpr':
             callee = inner[0]
             while callee.get('kind') in ('ImplicitCastExpr', 'ParenExpr'):
                 callee = callee['inner'][0]
             rd = callee.get('referencedDecl') or {}
-            if rd.get('kind') == 'FunctionDecl' and any(rd.get('name') == t[0] for t in TARGETS):
-                return '(src_%s %s)' % (rd['name'], ' '.join(self.expr(a, env) for a in inner[1:]))
-            raise Unsupported('call to %s' % rd.get('name'))
+            if rd.get('kind') == 'FunctionDecl' and rd.get('name') in ('min', 'max') and len(inner) == 3 \
+                    and (rd.get('type') or {}).get('qualType', '').count('&') == 3 and not self.is_ptr(inner[1]):
+                # std::min / std::max of two integers of one type
+                return '(Z.%s %s %s)' % (rd['name'], self.expr(inner[1], env), self.expr(inner[2], env))
+            if self.is_ptr(n):
+                return self.ptr_expr(n, env)[1]
+            return self.call(n, env)[1]
         raise Unsupported('expression %s' % k)
 
     # ---------------------------------------------------------------- statements
@@ -360,30 +558,90 @@ class Translator:
             return self.stmts(inner + rest, env)
         if k == 'NullStmt':
             return self.stmts(rest, env)
+        if k == '__continue__':
+            return '(%s %s)' % (s['lname'], ' '.join(["fuel'"] + self.arrays + [env[i] for i in s['ids']]))
         if k == 'ReturnStmt':
-            return self.expr(inner[0], env)
+            v, _, binds = self.full_expr(inner[0], env)
+            return self.with_binds(binds, '(Some %s)' % v) if self.opt else v
+        if k in ('WhileStmt', 'ForStmt'):
+            if not self.opt:
+                raise Unsupported('loop in a function translated without fuel')
+            if k == 'WhileStmt' and len(inner) != 2:
+                raise Unsupported('while with a condition variable')
+            if k == 'ForStmt' and (len(inner) != 5 or any(x.get('kind') for x in inner[:4])):
+                raise Unsupported('for loop other than for (;;)')
+            cond_node, body = (inner[0], inner[1]) if k == 'WhileStmt' else (None, inner[-1])
+            self.loop_count += 1
+            lname = 'src_%s_loop%d' % (self.cur_name, self.loop_count)
+            ids = [i for i in env if not isinstance(i, tuple)]
+            formals, env2 = [], {}
+            for i in ids:
+                f = 'l_' + self.var_names.get(i, 'x%d' % len(formals))
+                formals.append(f)
+                env2[i] = f
+            call = '(%s %s)' % (lname, ' '.join([self.fuel] + self.arrays + [env[i] for i in ids]))
+            saved = self.fuel
+            self.fuel = "fuel'"
+            cont = {'kind': '__continue__', 'lname': lname, 'ids': ids}
+            if cond_node is not None:
+                cond, pend, binds = self.full_expr(cond_node, env2, allow_pending=True)
+                lets, env3 = self.apply_pending(pend, env2)
+                btext = self.stmts([body, cont], env3)
+                rtext = self.stmts(rest, env3)
+                text = self.with_binds(binds, '(if z2b %s then %s%s else %s%s)' % (cond, lets, btext, lets, rtext))
+            else:
+                text = self.stmts([body, cont], env2)
+            self.fuel = saved
+            self.loop_defs.append(
+                "Fixpoint %s (fuel : nat) %s {struct fuel} : option Z :=\n  match fuel with\n  | O => None\n  | S fuel' =>\n  %s\n  end."
+                % (lname, ' '.join(['(%s : Z -> Z)' % a for a in self.arrays] + ['(%s : Z)' % f for f in formals]), text))
+            return call
         if k == 'DeclStmt':
+            if not inner:
+                return self.stmts(rest, env)
+            d = inner[0]
+            more = dict(s)
+            more['inner'] = inner[1:]
+            if d.get('kind') != 'VarDecl':
+                raise Unsupported('declaration %s' % d.get('kind'))
+            init = [c for c in (d.get('inner') or []) if isinstance(c, dict)]
+            if not init:
+                raise Unsupported('uninitialised local %s' % d.get('name'))
             env = dict(env)
-            out = []
-            for d in inner:
-                if d.get('kind') != 'VarDecl':
-                    raise Unsupported('declaration %s' % d.get('kind'))
-                init = [c for c in (d.get('inner') or []) if isinstance(c, dict)]
-                if not init:
-                    raise Unsupported('uninitialised local %s' % d.get('name'))
-                v = self.expr(init[0], env)
-                name = self.fresh(d['name'])
-                out.append('let %s := %s in' % (name, v))
-                env[d['id']] = name
-            return '\n  '.join(out) + '\n  ' + self.stmts(rest, env)
+            self.var_names[d['id']] = d['name']
+            if strip_quals((d.get('type') or {}).get('qualType', '')).endswith('*'):
+                (base, v), pend, binds = self.full_expr(init[0], env, allow_pending=True, ptr=True)
+                if base is None:
+                    raise Unsupported('local pointer initialised with nullptr')
+                self.ptr_base[d['id']] = base
+            else:
+                v, pend, binds = self.full_expr(init[0], env, allow_pending=True)
+            name = self.fresh(d['name'])
+            env[d['id']] = name
+            lets, env = self.apply_pending(pend, env)
+            return self.with_binds(binds, 'let %s := %s in %s\n  %s' % (name, v, lets, self.stmts([more] + rest, env)))
         if k == 'IfStmt':
             then = inner[1]
             els = inner[2] if len(inner) > 2 else None
             if self.always_returns(then) and (els is None or self.always_returns(els)):
-                cond = self.expr(inner[0], env)
+                cond, _, binds = self.full_expr(inner[0], env)
                 t = self.stmts([then], env)
                 e = self.stmts([els] if els is not None else rest, env)
-                return '(if z2b %s then %s else %s)' % (cond, t, e)
+                return self.with_binds(binds, '(if z2b %s then %s else %s)' % (cond, t, e))
+        if n_is_assign(s) and s.get('opcode') == '=' and self.is_ptr(inner[0]):
+            lhs = inner[0]
+            while lhs.get('kind') == 'ParenExpr':
+                lhs = lhs['inner'][0]
+            vid = (lhs.get('referencedDecl') or {}).get('id')
+            if lhs.get('kind') != 'DeclRefExpr' or vid not in env or vid not in self.ptr_base:
+                raise Unsupported('assignment to a pointer that is not a local variable')
+            (base, v), _, binds = self.full_expr(inner[1], env, ptr=True)
+            if base is not None and base != self.ptr_base[vid]:
+                raise Unsupported('pointer assigned a pointer into another array')
+            env = dict(env)
+            name = self.fresh(self.var_names.get(vid, 'p'))
+            env[vid] = name
+            return self.with_binds(binds, 'let %s := %s in\n  %s' % (name, v, self.stmts(rest, env)))
         if k in ('IfStmt', 'SwitchStmt') or (k in ('BinaryOperator', 'CompoundAssignOperator') and n_is_assign(s)) or n_is_incdec(s):
             vs = set(self.assigned(s))
             if len(vs) != 1:
@@ -401,6 +659,8 @@ class Translator:
     def assign_value(self, s, env):
         inner = [c for c in (s.get('inner') or []) if isinstance(c, dict)]
         if n_is_incdec(s):
+            if self.is_ptr(inner[0]):
+                return '(%s %s 1)' % (self.ptr_expr(inner[0], env)[1], '+' if s.get('opcode') == '++' else '-')
             ty = self.int_type(inner[0].get('type'))
             x = self.expr(inner[0], env)
             return self.wrap(ty, '(%s %s 1)' % (x, '+' if s.get('opcode') == '++' else '-'))
@@ -425,7 +685,7 @@ class Translator:
         return '%s_%d' % (base, self.counter)
 
     # ---------------------------------------------------------------- functions
-    def function(self, name, qt):
+    def function(self, name, qt, cname=None):
         if (name, qt) not in self.funcs:
             cands = [k[1] for k in self.funcs if k[0] == name]
             raise Unsupported('function %s with type %r not found (have: %s)' % (name, qt, cands))
@@ -433,6 +693,10 @@ class Translator:
         env, params = {}, []
         body = None
         self.fields, self.field_order = {}, []
+        self.ptr_base, self.var_names, self.arrays = {}, {}, []
+        self.loop_defs, self.loop_count, self.cur_name, self.fuel, self.pending = [], 0, cname or name, 'fuel', None
+        self.binds, self.shortcircuit = None, 0
+        self.opt = self.fuelled((name, qt))
         for c in n.get('inner', []) or []:
             if c.get('kind') == 'ParmVarDecl':
                 q = strip_quals((c.get('type') or {}).get('qualType', ''))
@@ -441,18 +705,25 @@ class Translator:
                     env[('rec', c['id'])] = True
                     params.append(('rec', c['id']))
                     continue
+                self.var_names[c['id']] = c.get('name', 'arg%d' % len(params))
                 if q.endswith('*'):
                     pname = 'p_' + c.get('name', 'arg%d' % len(params))
                     params.append('(%s : Z -> Z)' % pname)
-                else:
-                    self.int_type(c.get('type'))
-                    pname = 'v_' + c.get('name', 'arg%d' % len(params))
-                    params.append('(%s : Z)' % pname)
+                    self.ptr_base[c['id']] = pname
+                    self.arrays.append(pname)
+                    env[c['id']] = '(0)'
+                    continue
+                self.int_type(c.get('type'))
+                pname = 'v_' + c.get('name', 'arg%d' % len(params))
+                params.append('(%s : Z)' % pname)
                 env[c['id']] = pname
             elif c.get('kind') == 'CompoundStmt':
                 body = c
         ret = (n.get('type') or {}).get('qualType', '').split('(')[0].strip()
-        self.int_type({'qualType': ret, 'desugaredQualType': {'size_t': 'unsigned long', 'ST_ssize_t': 'long'}.get(ret, ret)})
+        if not ret.endswith('*'):
+            self.int_type({'qualType': ret, 'desugaredQualType': {'size_t': 'unsigned long', 'ST_ssize_t': 'long'}.get(ret, ret)})
+        if self.opt and any(isinstance(pp, tuple) for pp in params):
+            raise Unsupported('record parameter in a function with a loop')
         self.counter = 0
         text = self.stmts([body], env)
         plist = []
@@ -461,7 +732,17 @@ class Translator:
                 plist += ['(%s : Z)' % f for f in self.field_order]
             else:
                 plist.append(pp)
-        return 'Definition src_%s %s : Z :=\n  %s.' % (name, ' '.join(plist), text)
+        if self.opt:
+            return '\n\n'.join(self.loop_defs + ['Definition src_%s (fuel : nat) %s : option Z :=\n  %s.' % (cname or name, ' '.join(plist), text)])
+        return 'Definition src_%s %s : Z :=\n  %s.' % (cname or name, ' '.join(plist), text)
+
+
+def has_loop(n):
+    if not isinstance(n, dict):
+        return False
+    if n.get('kind') in ('WhileStmt', 'ForStmt', 'DoStmt'):
+        return True
+    return any(has_loop(c) for c in (n.get('inner') or []))
 
 
 def n_is_assign(s):
@@ -519,9 +800,10 @@ def generate(root, inc, cfg):
     """returns (coq text, list of (function, error))"""
     tr = Translator(root)
     defs, errors = [], []
-    for name, qt in TARGETS:
+    for t in TARGETS:
+        name, qt = t[0], t[1]
         try:
-            defs.append((name, tr.function(name, qt)))
+            defs.append((coq_name(t), tr.function(name, qt, coq_name(t))))
         except Unsupported as e:
             errors.append((name, str(e)))
         except (KeyError, IndexError, TypeError) as e:
